@@ -175,6 +175,11 @@ Print Assumptions C02_c_concat_correct.
 Example C02_concat_order_in_source : c_concat_split_first = true.
 Proof. reflexivity. Qed.
 
+(* _build_add / _build_sub / _build_mul are textually the functions Sim/CLimb.v transliterates
+   (AST digests checked by py/genfrag_C02.py on every run; a changed builder fails the generator) *)
+Example C02_arith_builders_as_modelled : c_arith_builders_audited = true.
+Proof. reflexivity. Qed.
+
 (* register update through regtmp, masked like a wire copy *)
 Theorem C02_c_regcopy_correct : forall wrin rin wrout,
   limbs_ok wrin rin -> 0 <= wrout <= wrin ->
